@@ -20,7 +20,7 @@ func ssaIndexAt(p *Prog, lbrack token.Pos) ssa.Instruction {
 		}
 		allInstrs(fn, func(in ssa.Instruction) {
 			switch in.(type) {
-			case *ssa.IndexAddr, *ssa.Index:
+			case *ssa.IndexAddr, *ssa.Index, *ssa.Slice:
 				if in.Pos() == lbrack && found == nil {
 					found = in
 				}
@@ -162,6 +162,9 @@ func nonNegative(v ssa.Value, depth int) bool {
 }
 
 func dischargeIndexSSA(p *Prog, in ssa.Instruction) (string, bool) {
+	if sl, ok := in.(*ssa.Slice); ok {
+		return dischargeSliceSSA(sl)
+	}
 	x, idx := indexOperands(in)
 	if x == nil {
 		return "", false
@@ -397,4 +400,48 @@ func appendsOneTo(fn *ssa.Function, field string) bool {
 		}
 	})
 	return n == 1 && good == 1
+}
+
+// dischargeSliceSSA: S[:h] (or S[l:h] with constant l = 0) where h = len(S) - k for a constant k >= 0 and a dominating
+// condition establishes h >= 0; or S[:k] with a dominating len(S) >= k.
+func dischargeSliceSSA(sl *ssa.Slice) (string, bool) {
+	if sl.Max != nil {
+		return "", false
+	}
+	if sl.Low != nil {
+		if k, ok := constInt(sl.Low); !ok || k != 0 {
+			return "", false
+		}
+	}
+	if sl.High == nil {
+		return "whole-slice expression", true
+	}
+	h := stripConv(sl.High)
+	if b, ok := h.(*ssa.BinOp); ok && b.Op == token.SUB {
+		if k, isC := constInt(b.Y); isC && k >= 0 {
+			if s2 := lenArg(b.X); s2 != nil && sameSliceAt(sl.X, s2, sl) {
+				if k == 0 {
+					return "S[:len(S)]", true
+				}
+				// h >= 0 established?
+				for _, g := range guardsOf(sl.Block()) {
+					c, pol := flattenCond(g.Cond, g.Pol)
+					cb, ok := c.(*ssa.BinOp)
+					if !ok || stripConv(cb.X) != h {
+						continue
+					}
+					op := cb.Op
+					if !pol {
+						op = negateOp(op)
+					}
+					if z, isZ := constInt(cb.Y); isZ {
+						if (op == token.GEQ && z >= 0) || (op == token.GTR && z >= -1) {
+							return "S[:len(S)-k] under a dominating test that len(S)-k is not negative", true
+						}
+					}
+				}
+			}
+		}
+	}
+	return "", false
 }
